@@ -52,9 +52,9 @@ def vocab():
 
 
 _ARGS = {}
-ARG_A = ['{}', '{}', '{x}', '{a=}{,b}', '{name=n,description=}{x}', '{k={v}', '{a b}', '{ }', 'x', '{\\foo}', '{%\n}', ' {}', '{german}', '{1}', '{x=y}', '', '{{}}',
+ARG_A = ['{}', '{}', '{x}', '{description}', '{name,description}', '{text,first}', '{99999999999}', '{-1}', '{a=}{,b}', '{name=n,description=}{x}', '{k={v}', '{a b}', '{ }', 'x', '{\\foo}', '{%\n}', ' {}', '{german}', '{1}', '{x=y}', '', '{{}}',
          '{\\x}', '{$}', '{#1}']
-ARG_O = ['', '', '[]', '[x]', '[ ]', '[1]', '[german]', '[a=b,c]', '[{]}]', '[', '[\\foo]', '[a=}{]', '[a={b},c=}{d]',
+ARG_O = ['', '', '[]', '[x]', '[99999999999]', '[12]', '[0]', '[description]', '[-3]', '[ ]', '[1]', '[german]', '[a=b,c]', '[{]}]', '[', '[\\foo]', '[a=}{]', '[a={b},c=}{d]',
          '[a=}]', '[=]', '[,=,]', '[a={}]']
 
 
